@@ -154,6 +154,11 @@ def run(ctx):
     for i in range(m):
         evals += 1
         keys = [f"p{j}" for j in range(rng.randint(1, 5))]
+        if i % 2 == 1:
+            # the layout of Module.get_parameters(): the SAME name in several entries (one per
+            # make_trainable call), each with its own transform
+            keys = [rng.choice(["radius", "length"]) for _ in range(rng.randint(2, 5))]
+            keys[-1] = keys[0]
         tfs, params, kinds = [], [], []
         for k in keys:
             kind = rng.choice(["sigmoid", "softplus", "negsoftplus", "affine"])
@@ -182,7 +187,7 @@ def run(ctx):
     for v in viol:
         v.setdefault("finding_class", None)
     return {"evaluations": evals, "distinct_nontrivial": len(distinct),
-            "rule": "bounds, monotonicity (pairs x<x2) and both round trips of every transform class at x up to +-1e6 incl. the old clipping points (+-20, 50, -30); round trip only where the inverse is representable (conditioning-derived tolerance); ParamTransform on random pytrees, eager vs jit; distinct by (transform, x)",
+            "rule": "bounds, monotonicity (pairs x<x2) and both round trips of every transform class at x up to +-1e6 incl. the old clipping points (+-20, 50, -30); round trip only where the inverse is representable (conditioning-derived tolerance); ParamTransform on random pytrees incl. repeated parameter names with different transforms (the get_parameters() layout), eager vs jit; distinct by (transform, x)",
             "samples": samples, "violations": viol[:20]}
 
 
